@@ -25,6 +25,7 @@ func init() {
 }
 
 func runC05(c *eng.Ctx) {
+	defer runC05Iso(c)
 	p := c.P
 	// ---- R1 the append-id bracket ----
 	c.CallersSubset("R1", "tsdb:isolation.newAppendID", 2, "tsdb:Head.appender", "tsdb:Head.appenderV2")
